@@ -26,7 +26,9 @@ BASE_FEAT = dict(
     p_type_pos=0.12,
     p_dup_sig=0.08,
     p_self=0.0,
-    p_proto=0.2,  # probability that the world has structural ABCs (subclass iff a marker attribute exists)  # probability that the function is an overloaded *method* (all methods take self)
+    p_proto=0.2,
+    p_zero=0.08,     # a zero-argument method (and single parameters may then be optional)
+    p_factory=0.15,  # some one-parameter methods are closures made by one factory def  # probability that the world has structural ABCs (subclass iff a marker attribute exists)  # probability that the function is an overloaded *method* (all methods take self)
     ncorpus=(4, 8),
     swarm_drop=0.35,  # probability to disable each optional kind in a world
 )
@@ -234,6 +236,20 @@ def gen_world(rng, f):
         if body[0] == "next_other":
             body.append(["n", rng.choice(names), rng.randrange(4), []])
         methods[mid] = {"params": params, "prio": prio, "body": body}
+    if min_ar == 1 and not mixed and rng.random() < f.get("p_factory", 0):
+        elig = [mid for mid, m in methods.items()
+                if len(m["params"]) == 1 and m["params"][0][1] == "pos" and not m["params"][0][3]
+                and m["params"][0][0] == "a0" and m["body"][0] in ("next", "leaf")]
+        for mid in rng.sample(elig, min(len(elig), rng.randint(2, 3))):
+            methods[mid]["factory"] = True
+    if rng.random() < f.get("p_zero", 0):
+        # zero-argument method; goes last so that "the first method" always has a parameter
+        for m in methods.values():
+            if len(m["params"]) == 1 and m["params"][0][1] == "pos" and not m.get("factory") \
+                    and m["body"][0] == "leaf" and rng.random() < 0.5:
+                m["params"][0][3] = True
+        methods["mz"] = {"params": [], "prio": 0, "body": ["leaf"]}
+        min_ar = 0
     spec = {
         "classes": classes, "virtual": virtual, "hooks": hooks, "deps": deps,
         "protocols": protocols, "markers": markers,
@@ -265,8 +281,11 @@ def gen_call(rng, spec, odd_shapes=True):
     args = []
     for p in range(n):
         fl = meta["flavour"][p] if p < len(meta["flavour"]) else "cls"
-        if rng.random() < 0.05:
+        r = rng.random()
+        if r < 0.05:
             fl = rng.choice(["cls", "int"])
+        elif r < 0.09 and fl == "cls":
+            fl = "type"  # a class object where instances are expected
         args.append(gen_value(rng, spec, fl))
     c = {"args": args}
     if meta["has_kw"] and rng.random() < 0.6:
